@@ -601,6 +601,9 @@ def get_bs_cached(Rmax, order=2, odd=False, direction='inverse', reg=None,
     """
     global _bs_prm, _bs, _valid_key, _trf, _tri_full, _tri_prm, _tri
 
+    if isinstance(reg, list):
+        reg = tuple(reg)  # (the cache must not refer to the caller's list)
+
     if basis_dir == '':
         basis_dir = abel.transform.get_basis_dir(make=True)
 
